@@ -26,6 +26,7 @@ import (
 type cfgCase struct {
 	Key        string `json:"key"`
 	Documented bool   `json:"documented"`
+	Form       string `json:"form"` // plain | access-suffix: the .lfsconfig line carries the value under "<key>.access"
 	Before     []string `json:"before"` // the other lines of the .lfsconfig, all documented keys
 	After      []string `json:"after"`
 	Spelling   string `json:"spelling"`
@@ -425,7 +426,12 @@ func runCfgCase(c *core.Ctx, lfsBin string, cs *cfgCase, idx int, probes map[str
 	for _, n := range cs.Before {
 		kvs = append(kvs, neighbourLine(n))
 	}
-	kvs = append(kvs, pr.kv(w, 1)...)
+	for _, kv := range pr.kv(w, 1) {
+		if cs.Form == "access-suffix" {
+			kv[0] += ".access"
+		}
+		kvs = append(kvs, kv)
+	}
 	for _, n := range cs.After {
 		kvs = append(kvs, neighbourLine(n))
 	}
@@ -460,7 +466,7 @@ func runCfgCase(c *core.Ctx, lfsBin string, cs *cfgCase, idx int, probes map[str
 	}
 	seen, evidence := pr.observe(w)
 	mk := func(assertion, why string) *core.Violation {
-		return &core.Violation{Assertion: assertion, Fields: map[string]string{"key": cs.Key, "location": cs.Location, "spelling": cs.Spelling, "alsoGit": fmt.Sprint(cs.AlsoGit), "before": strings.Join(cs.Before, ","), "after": strings.Join(cs.After, ",")},
+		return &core.Violation{Assertion: assertion, Fields: map[string]string{"key": cs.Key, "location": cs.Location, "spelling": cs.Spelling, "alsoGit": fmt.Sprint(cs.AlsoGit), "form": cs.Form, "before": strings.Join(cs.Before, ","), "after": strings.Join(cs.After, ",")},
 			Detail: map[string]interface{}{"why": why, "case": cs, "lfsconfig": lfsconfig, "evidence": evidence, "acted_on_lfsconfig_value": seen[1], "acted_on_git_value": seen[2]}}
 	}
 	switch cs.Expect {
@@ -494,6 +500,9 @@ func init() {
 		}
 		r := c.TLC(core.TLCOpts{Module: "LfsConfig_MC", Cfg: cfg, Workers: 4, Timeout: 10 * time.Minute})
 		c.MustPass(r, "LfsConfig")
+		if rm := c.TLC(core.TLCOpts{Module: "LfsConfig_MC", Cfg: "LfsConfig_prefixmatch.cfg", Workers: 4, Timeout: 10 * time.Minute}); rm.Violated == "" {
+			c.Infra("non-vacuity: the variant whose consumers match keys by prefix violates nothing")
+		}
 		if rm := c.TLC(core.TLCOpts{Module: "LfsConfig_MC", Cfg: "LfsConfig_stateful.cfg", Workers: 4, Timeout: 10 * time.Minute}); rm.Violated == "" {
 			c.Infra("non-vacuity: the variant whose allow decision survives from line to line violates nothing")
 		} else {
@@ -553,7 +562,7 @@ func init() {
 		c.Set("evaluations", len(cases))
 		c.Set("distinct_nontrivial", len(cases))
 		c.Set("exhaustive", true)
-		c.Set("rule", "cases = every decided state of spec/LfsConfig.tla: 33 key classes (documented and not) x {lower, mixed-case} spelling x .lfsconfig in {work tree, index only, HEAD only} x {not, also} set in Git's configuration, plus each key class with up to MaxBefore lines before and MaxAfter after it drawn from three documented neighbours (lfs.<url>.access, remote.<name>.lfsurl, lfs.fetchexclude); each observed through `git lfs env` or a sentinel")
+		c.Set("rule", "cases = every decided state of spec/LfsConfig.tla: 33 key classes (documented and not) x {lower, mixed-case} spelling x .lfsconfig in {work tree, index only, HEAD only} x {not, also} set in Git's configuration, plus each undocumented key class carried by the key with \".access\" appended (which the allow-list lets through as lfs.<url>.access), plus each key class with up to MaxBefore lines before and MaxAfter after it drawn from three documented neighbours (lfs.<url>.access, remote.<name>.lfsurl, lfs.fetchexclude); each observed through `git lfs env` or a sentinel")
 		for i := 0; i < len(cases); i += len(cases)/5 + 1 {
 			c.Sample(cases[i])
 		}
